@@ -91,3 +91,15 @@ Proof.
   split; [discriminate | intros _; split; right; reflexivity].
 Qed.
 Print Assumptions C19_contribution_rule.
+
+(* the decision at the end of intersectEdges (do two crossing, non-hot edges of the same path set start a new
+   output polygon?), as TRANSLATED FROM /repo's CURRENT SOURCE on every run (Gen/NewPoly_gen.v), is: both
+   edges are contributing (C19_contribution_rule) with their updated wind counts *)
+From Clip Require Import Gen.NewPoly_gen Model.NewPolyProofs.
+Theorem C19_new_polygon_at_crossing :
+  forall fr ct w1 w2 c is_subj,
+    ct <> NoClip -> counts_ok fr w1 c -> counts_ok fr w2 c ->
+    gen_newpoly fr ct c c is_subj (norm fr w1) (norm fr w2) true =
+    gen_isContributingClosed fr ct w1 c is_subj && gen_isContributingClosed fr ct w2 c is_subj.
+Proof. exact newpoly_same_set_is_both_contributing. Qed.
+Print Assumptions C19_new_polygon_at_crossing.
